@@ -8,5 +8,6 @@ if ! git apply --3way "$diff" 2>/dev/null && ! git apply "$diff"; then echo "pat
 cd /verif
 out=$(./check "$prop" --tier "$tier" 2>&1); rc=$?
 git -C /repo reset -q --hard HEAD
-echo "$out" | grep -E "^(VIOLATION|KNOWN|INCONCLUSIVE|MACHINERY|C[0-9]+ tier)|key=" | head -${LINES_MAX:-14}
+echo "$out" > /tmp/try_mutant_last.log
+echo "$out" | grep -E "^(VIOLATION|INCONCLUSIVE|MACHINERY|C[0-9]+ tier)|^  key=" | head -${LINES_MAX:-14}
 echo "exit=$rc"
